@@ -65,3 +65,26 @@ Print Assumptions C19_main_io_shape.
 Theorem C19_choices : enable_choices = "all" :: "none" :: "default" :: ALL_OPTIONS.
 Proof. exact choices_proof. Qed.
 Print Assumptions C19_choices.
+
+From Coq Require Import ZArith.
+From NGO Require Import Gen.Cli Model.PredList Link.PredListSpec.
+
+Theorem C19_predlist_constants : predlist_auto_token = "auto" /\ predlist_sep = "," /\ predlist_arity_sep = "/" /\ predlist_strip = " " /\ predlist_parts = 2.
+Proof. exact (@PredListSpec.predlist_constants_proof). Qed.
+Print Assumptions C19_predlist_constants.
+
+Theorem C19_parse_parts_spec : forall (parts : list string) (l : list (string * Z)), parse_parts parts = Ast.Ok l <-> map entry_of parts = map Some l.
+Proof. exact (@PredListSpec.parse_parts_spec_proof). Qed.
+Print Assumptions C19_parse_parts_spec.
+
+Theorem C19_parse_parts_length : forall (parts : list string) (l : list (string * Z)), parse_parts parts = Ast.Ok l -> Datatypes.length l = Datatypes.length parts.
+Proof. exact (@PredListSpec.parse_parts_length_proof). Qed.
+Print Assumptions C19_parse_parts_length.
+
+Theorem C19_parse_predicate_list_spec : forall (v : string) (l : list (string * Z)), v <> predlist_auto_token -> v <> "" -> parse_predicate_list v = Ast.Ok (PLList l) <-> map entry_of (split_on (first_char predlist_sep) v) = map Some l.
+Proof. exact (@PredListSpec.parse_predicate_list_spec_proof). Qed.
+Print Assumptions C19_parse_predicate_list_spec.
+
+Theorem C19_same_name_two_arities : parse_predicate_list "p/1,p/2" = Ast.Ok (PLList (("p", 1%Z) :: ("p", 2%Z) :: nil)) /\ parse_predicate_list "e/2, e/1" = Ast.Ok (PLList (("e", 2%Z) :: ("e", 1%Z) :: nil)) /\ parse_predicate_list "zero/0, another/14" = Ast.Ok (PLList (("zero", 0%Z) :: ("another", 14%Z) :: nil)) /\ parse_predicate_list "auto" = Ast.Ok PLAuto /\ parse_predicate_list "" = Ast.Ok (PLList nil) /\ parse_predicate_list "a/b" = Ast.Raise "ArgumentTypeError" /\ parse_predicate_list "a" = Ast.Raise "ArgumentTypeError".
+Proof. exact (@PredListSpec.same_name_two_arities). Qed.
+Print Assumptions C19_same_name_two_arities.
